@@ -5,6 +5,7 @@ go 1.25.0
 require google.golang.org/grpc v0.0.0
 
 require (
+	github.com/google/uuid v1.6.0 // indirect
 	golang.org/x/net v0.58.0 // indirect
 	golang.org/x/sys v0.47.0 // indirect
 	golang.org/x/text v0.41.0 // indirect
